@@ -537,6 +537,8 @@ package ast
 //@   ensures  added: result == nil ==> (forall k: string :: other.Objects.records.has(k) && !old(schema.Objects.records.has(k)) ==> schema.Objects.records[k] == other.Objects.records[k])
 //@   ensures  agree: result == nil ==> (forall k: string :: other.Objects.records.has(k) && old(schema.Objects.records.has(k)) ==> call("ast.Object.Equal", old(schema.Objects.records[k]), other.Objects.records[k]))
 //@   ensures  samepkg: result == nil ==> schema.Package == other.Package && schema.Metadata.Identifier == other.Metadata.Identifier && schema.Metadata.Kind == other.Metadata.Kind && schema.Metadata.Variant == other.Metadata.Variant
+//@   ensures  entrytaken: result == nil && old(schema.EntryPoint) == "" ==> schema.EntryPoint == other.EntryPoint && (other.EntryPoint != "" ==> schema.EntryPointType == other.EntryPointType)
+//@   ensures  entrykept: old(schema.EntryPoint) != "" ==> schema.EntryPoint == old(schema.EntryPoint) && schema.EntryPointType == old(schema.EntryPointType)
 //@   ensures  wf: wf(schema.Objects)
 //@   inlined-loop 0:
 //@     invariant wf: wf(schema.Objects)
